@@ -70,9 +70,11 @@ def _compute_constant_value_of_constant_reference(expression, ir):
     expression = ir_data_utils.builder(expression)
     if isinstance(referred_object, ir_data.EnumValue):
         compute_constraints_of_expression(referred_object.value, ir)
-        assert ir_util.is_constant(referred_object.value)
-        new_value = str(ir_util.constant_value(referred_object.value))
-        expression.type.enumeration.value = new_value
+        # An enum value that is not constant (a static reference to a field
+        # that is not constant) is reported by constraints.py.
+        if ir_util.is_constant(referred_object.value):
+            new_value = str(ir_util.constant_value(referred_object.value))
+            expression.type.enumeration.value = new_value
     elif isinstance(referred_object, ir_data.Field):
         assert ir_util.field_is_virtual(referred_object), (
             "Non-virtual non-enum-value constant reference should have been caught "
